@@ -22,6 +22,9 @@ import (
 	"sort"
 	"strings"
 	"sync"
+	"unicode"
+
+	"golang.org/x/text/unicode/norm"
 
 	"github.com/pokt-network/pocket-core/crypto"
 	"github.com/pokt-network/pocket-core/crypto/keys"
@@ -187,6 +190,39 @@ func unarmLine(t *buf, kind, class string, k key, armor, encPass, decPass string
 	t.Line(kind, strings.HasPrefix(res, "OK"), "unarm %s %s %s %s %s %s %s %s %s %s => %s", class, privHex(k.priv), hx(encPass), hx(decPass), jsonOK, hx(aj.Kdf), hx(aj.Salt), saltD, ctD, oracle, res)
 }
 
+// variants: passphrases that differ from p but are "near" it.  Every one of them must be refused
+// (the trailing-NUL one is the recorded HMAC equivalence, matched by its own signature).
+func variants(p string) []string {
+	swap := strings.Map(func(c rune) rune {
+		switch {
+		case unicode.IsUpper(c):
+			return unicode.ToLower(c)
+		case unicode.IsLower(c):
+			return unicode.ToUpper(c)
+		}
+		return c
+	}, p)
+	trunc := p
+	if len(p) > 0 {
+		rs := []rune(p)
+		trunc = string(rs[:len(rs)-1])
+	}
+	cand := []string{
+		p + "\n", " " + p, p + "\r\n", p + "\u00a0", "\u3000" + p, "\t" + p + " ", p + " ", "\n" + p, p + "\u2003",
+		swap, strings.ToUpper(p), norm.NFD.String(p), norm.NFC.String(p), norm.NFKC.String(p),
+		p + "x", "x" + p, trunc, p + p, "", p + "\x00",
+	}
+	seen := map[string]bool{p: true}
+	var out []string
+	for _, c := range cand {
+		if !seen[c] {
+			seen[c] = true
+			out = append(out, c)
+		}
+	}
+	return out
+}
+
 func mintkeyCase(t *buf, r *gen.R, pool []pw) {
 	k := newKey(r, r.Chance(1, 4))
 	pi := r.Intn(len(pool))
@@ -219,18 +255,36 @@ func mintkeyCase(t *buf, r *gen.R, pool []pw) {
 	for _, i := range others {
 		unarmLine(t, "unarm-otherpass", "otherpass", k, armor, p.s, pool[i].s)
 	}
-	// derived wrong passphrases
-	switch r.Intn(4) {
-	case 0:
-		unarmLine(t, "unarm-otherpass", "otherpass", k, armor, p.s, p.s+"x")
-	case 1:
-		unarmLine(t, "unarm-otherpass", "otherpass", k, armor, p.s, p.s+"\x00")
-	case 2:
-		if len(p.s) > 0 {
-			unarmLine(t, "unarm-otherpass", "otherpass", k, armor, p.s, p.s[:len(p.s)-1])
+	// wrong passphrases derived from the right one: surrounding whitespace (ASCII and Unicode),
+	// case, NFC/NFD, prefix/suffix/truncation, doubled, empty, trailing NUL.  The whitespace
+	// family is always present; of the rest all for a quarter of the cases, else three.
+	vs := variants(p.s)
+	var ws, rest []string
+	for _, v := range vs {
+		if strings.TrimSpace(v) == strings.TrimSpace(p.s) && v != p.s {
+			ws = append(ws, v)
+		} else {
+			rest = append(rest, v)
 		}
-	default:
-		unarmLine(t, "unarm-otherpass", "otherpass", k, armor, p.s, strings.ToUpper(p.s)+" ")
+	}
+	if !r.Chance(1, 4) {
+		for i := len(ws) - 1; i > 0; i-- {
+			j := r.Intn(i + 1)
+			ws[i], ws[j] = ws[j], ws[i]
+		}
+		if len(ws) > 3 {
+			ws = ws[:3]
+		}
+		for i := len(rest) - 1; i > 0; i-- {
+			j := r.Intn(i + 1)
+			rest[i], rest[j] = rest[j], rest[i]
+		}
+		if len(rest) > 3 {
+			rest = rest[:3]
+		}
+	}
+	for _, v := range append(ws, rest...) {
+		unarmLine(t, "unarm-nearpass", "otherpass", k, armor, p.s, v)
 	}
 	// armor mutations, decrypted with the right passphrase
 	mut := func(f func(a *mintkey.ArmoredJson)) string {
@@ -316,6 +370,7 @@ type kbHarness struct {
 	pws   []pw
 	r     *gen.R
 	known map[string]string // addr -> privhex for keys made by Create
+	cur   map[string]string // addr -> passphrase currently protecting the key (as far as the harness knows)
 }
 
 func (h *kbHarness) addrs() []string {
@@ -379,6 +434,18 @@ func (h *kbHarness) step() {
 	r := h.r
 	t := h.t
 	pass := func() pw { return h.pws[r.Intn(len(h.pws))] }
+	if h.cur == nil {
+		h.cur = map[string]string{}
+	}
+	// the passphrase handed to an operation on address a: a pool passphrase, or (one time in three)
+	// a near variant of the one protecting the key
+	given := func(a string) pw {
+		if c, ok := h.cur[a]; ok && r.Chance(1, 3) {
+			vs := variants(c)
+			return pw{vs[r.Intn(len(vs))], "near"}
+		}
+		return pass()
+	}
 	switch k := r.Intn(20); {
 	case k < 4: // import raw object
 		key := h.pool[r.Intn(len(h.pool))]
@@ -396,6 +463,9 @@ func (h *kbHarness) step() {
 			return "OK " + hex.EncodeToString(kp.GetAddress())
 		})
 		t.Line("import", strings.HasPrefix(res, "OK"), "import %s %s %s => %s", privHex(key.priv), key.addr, hx(p.s), res)
+		if strings.HasPrefix(res, "OK") {
+			h.cur[key.addr] = p.s
+		}
 	case k < 5: // create
 		p := pass()
 		res := try(func() string {
@@ -409,6 +479,7 @@ func (h *kbHarness) step() {
 				return "OK " + a + " ~"
 			}
 			h.known[a] = privHex(priv)
+			h.cur[a] = p.s
 			return "OK " + a + " " + privHex(priv)
 		})
 		t.Line("create", strings.HasPrefix(res, "OK"), "create %s => %s", hx(p.s), res)
@@ -417,6 +488,9 @@ func (h *kbHarness) step() {
 		armPass, decPass, encPass := pass(), pass(), pass()
 		if r.Chance(2, 3) {
 			decPass = armPass
+		} else if r.Chance(1, 2) {
+			vs := variants(armPass.s)
+			decPass = pw{vs[r.Intn(len(vs))], "near"}
 		}
 		armor, _ := mintkey.EncryptArmorPrivKey(key.priv, armPass.s, "")
 		res := try(func() string {
@@ -427,9 +501,12 @@ func (h *kbHarness) step() {
 			return "OK " + hex.EncodeToString(kp.GetAddress())
 		})
 		t.Line("imparm", strings.HasPrefix(res, "OK"), "imparm %s %s %s %s %s => %s", privHex(key.priv), key.addr, hx(armPass.s), hx(decPass.s), hx(encPass.s), res)
+		if strings.HasPrefix(res, "OK") {
+			h.cur[key.addr] = encPass.s
+		}
 	case k < 9: // export armor, then open it with the new passphrase (and with another one)
 		a := h.pickAddr()
-		dec, enc := pass(), pass()
+		dec, enc := given(a), pass()
 		res := try(func() string {
 			armor, err := h.kb.ExportPrivKeyEncryptedArmor(addrOf(a), dec.s, enc.s, "h")
 			if err != nil {
@@ -444,7 +521,7 @@ func (h *kbHarness) step() {
 		t.Line("export", strings.HasPrefix(res, "OK"), "export %s %s %s => %s", a, hx(dec.s), hx(enc.s), res)
 	case k < 11:
 		a := h.pickAddr()
-		p := pass()
+		p := given(a)
 		res := try(func() string {
 			priv, err := h.kb.ExportPrivateKeyObject(addrOf(a), p.s)
 			if err != nil {
@@ -455,9 +532,12 @@ func (h *kbHarness) step() {
 		t.Line("exportobj", strings.HasPrefix(res, "OK"), "exportobj %s %s => %s", a, hx(p.s), res)
 	case k < 13:
 		a := h.pickAddr()
-		p := pass()
+		p := given(a)
 		res := try(func() string { return errClass(h.kb.Delete(addrOf(a), p.s)) })
 		t.Line("delete", res == "OK", "delete %s %s => %s", a, hx(p.s), res)
+		if res == "OK" {
+			delete(h.cur, a)
+		}
 	case k < 14:
 		if !r.Chance(1, 3) {
 			h.listLine()
@@ -468,17 +548,18 @@ func (h *kbHarness) step() {
 		t.Line("unsafedelete", res == "OK", "unsafedelete %s => %s", a, res)
 	case k < 15:
 		a := h.pickAddr()
-		o, n := pass(), pass()
+		o, n := given(a), pass()
 		res := try(func() string { return errClass(h.kb.Update(addrOf(a), o.s, n.s)) })
 		t.Line("update", res == "OK", "update %s %s %s => %s", a, hx(o.s), hx(n.s), res)
 		if res == "OK" {
+			h.cur[a] = n.s
 			// the key must now open with the new passphrase and (unless equivalent) not with the old one
 			h.exportObjLine(a, n.s)
 			h.exportObjLine(a, o.s)
 		}
 	case k < 16:
 		a := h.pickAddr()
-		p := pass()
+		p := given(a)
 		msg := r.Bytes(1 + r.Intn(16))
 		res := try(func() string {
 			sig, pub, err := h.kb.Sign(addrOf(a), p.s, msg)
@@ -576,9 +657,28 @@ func kbScenario(t *buf, r *gen.R, pool []pw) {
 		res = try(func() string { return errClass(h.kb.Update(addrOf(k1.addr), "pässwörd✓日本", "b")) })
 		t.Line("update", res == "OK", "update %s %s %s => %s", k1.addr, hx("pässwörd✓日本"), hx("b"), res)
 	}
+	// the right passphrase with surrounding whitespace must be refused by every operation
+	for _, wsp := range []string{"a\n", " a", "a\r\n", "a\u00a0", "\u3000a", "A", "aa", "a "} {
+		h.exportObjLine(k0.addr, wsp)
+	}
+	{
+		res := try(func() string { return errClass(h.kb.Update(addrOf(k0.addr), "a\n", "zzz")) })
+		t.Line("update", res == "OK", "update %s %s %s => %s", k0.addr, hx("a\n"), hx("zzz"), res)
+		res = try(func() string {
+			_, _, err := h.kb.Sign(addrOf(k0.addr), " a", []byte{1})
+			return errClass(err)
+		})
+		t.Line("sign", res == "OK", "sign %s %s => %s", k0.addr, hx(" a"), res)
+		res = try(func() string {
+			_, err := h.kb.ExportPrivKeyEncryptedArmor(addrOf(k0.addr), "a\t", "n", "h")
+			return errClass(err)
+		})
+		t.Line("export", res == "OK", "export %s %s %s => %s", k0.addr, hx("a\t"), hx("n"), res)
+	}
 	setcb(k0.addr)
 	getcb()
-	del(k0.addr, "b") // wrong passphrase
+	del(k0.addr, "a\n") // right passphrase plus a newline
+	del(k0.addr, "b")   // wrong passphrase
 	del(k0.addr, "a")
 	get(k0.addr)
 	h.listLine()
